@@ -335,7 +335,7 @@ reference.uses_impl = True
 
 
 # ---- generators -----------------------------------------------------------------------------------
-L_OPS = ["lappend 0 0", "lappend 0 1", "lappend 0 2", "lprepend 0 1", "linsert 0 1 0", "linsert 0 1 2",
+L_OPS = ["lappend 0 0", "lappend 0 1", "lappend 0 2", "lprepend 0 1", "linsert 0 1 0", "linsert 0 1 2", "linsert 0 2 1",
          "lremove 0 0", "lremove 0 1", "lremovev 0 1", "lremoveFront 0", "lremoveBack 0", "lclear 0", "lswap 0",
          "lappend 1 2", "lappendl 0", "lprependl 0", "linsertl 0 1", "lcopy 1", "lassign 0", "lsort 0", "lfind 0 1", "leq 0 1"]
 P_OPS = ["pappend 0 0", "pappend 0 1", "pappend 0 2", "pappend 1 1", "premove 0 0", "premove 0 1", "premovev 0 0",
